@@ -66,6 +66,22 @@ type reader interface {
 	Iterator(startKey, limitKey []byte) *database.VerifTreapIterator
 }
 
+// newIter returns a fresh iterator BY VALUE. The type switch makes the constructor call direct, so
+// it is inlined and nothing is heap-allocated (an Iterator carries a 1 KiB parent stack; the
+// harness creates dozens per step). Copying an Iterator value is safe: it has no self-references.
+func newIter(t reader, s, l []byte) database.VerifTreapIterator {
+	switch x := t.(type) {
+	case *database.VerifTreapMutable:
+		return *x.Iterator(s, l)
+	case *database.VerifTreapImmutable:
+		return *x.Iterator(s, l)
+	}
+	return *t.Iterator(s, l)
+}
+
+// work is the scratch iterator of the read oracles (one per process; workers are single-threaded).
+var work = new(database.VerifTreapIterator)
+
 // nodeOverhead is the per-node constant of Size(); measured once from a one-node treap with an
 // empty key and an empty value (the constant is unexported), then required to hold linearly
 // everywhere: Size == sum(overhead + len(key) + len(value)).
@@ -318,6 +334,7 @@ func readFull(t reader, m model, f *failures, ctx string) {
 		f.add("contents|"+c, "%s: treap disagrees with the sorted-map model %v (%s)", ctx, m, c)
 	}
 	var e [4]int
+	it := work
 	for _, r := range ranges {
 		n := m.within(r, &e)
 		first, last := -1, -1
@@ -332,7 +349,8 @@ func readFull(t reader, m model, f *failures, ctx string) {
 			class = "range-halfopen"
 		}
 		firstSound, lastSound := r.s != nil || r.l == nil, r.l != nil || r.s == nil
-		it := t.Iterator(r.s, r.l)
+		pristine := newIter(t, r.s, r.l)
+		*it = pristine
 		if it.Valid() || it.Key() != nil || it.Value() != nil {
 			f.add(class+"|new-valid", "%s: a new iterator [%q,%q) claims to be positioned", ctx, r.s, r.l)
 		}
@@ -340,12 +358,12 @@ func readFull(t reader, m model, f *failures, ctx string) {
 		if firstSound {
 			if !atOK(it, it.Next(), m, first) { // Next on a new iterator positions at the first item
 				c = "new-next"
-			} else if c = forward(it, it.First(), m, e[:n]); c == "" {
-				it = t.Iterator(r.s, r.l)
+			} else {
+				c = forward(it, it.First(), m, e[:n])
 			}
 		}
 		if c == "" && lastSound {
-			it = t.Iterator(r.s, r.l)
+			*it = pristine
 			if !atOK(it, it.Prev(), m, last) { // Prev on a new iterator positions at the last item
 				c = "new-prev"
 			} else {
@@ -353,22 +371,22 @@ func readFull(t reader, m model, f *failures, ctx string) {
 			}
 		}
 		if c == "" {
-			it = t.Iterator(r.s, r.l)
+			*it = pristine
 			c = seeks(it, r, m, e[:n])
 		}
 		if c == "" && !firstSound { // forward pass entered by Seek instead of First
-			it = t.Iterator(r.s, r.l)
+			*it = pristine
 			c = forward(it, it.Seek(probes[0]), m, e[:n])
 		}
 		if c != "" {
 			f.add(class+"|"+c, "%s: iterator [%q,%q) disagrees with the sorted-map model %v (%s)", ctx, r.s, r.l, m, c)
 		}
 		if !firstSound {
-			it = t.Iterator(r.s, r.l)
+			*it = pristine
 			c := ""
 			if !entryOK(it, it.First(), m, first) {
 				c = "first"
-			} else if it = t.Iterator(r.s, r.l); !entryOK(it, it.Next(), m, first) {
+			} else if *it = pristine; !entryOK(it, it.Next(), m, first) {
 				c = "new-next"
 			}
 			if c != "" {
@@ -376,11 +394,11 @@ func readFull(t reader, m model, f *failures, ctx string) {
 			}
 		}
 		if !lastSound {
-			it = t.Iterator(r.s, r.l)
+			*it = pristine
 			c := ""
 			if !entryOK(it, it.Last(), m, last) {
 				c = "last"
-			} else if it = t.Iterator(r.s, r.l); !entryOK(it, it.Prev(), m, last) {
+			} else if *it = pristine; !entryOK(it, it.Prev(), m, last) {
 				c = "new-prev"
 			}
 			if c != "" {
@@ -388,6 +406,57 @@ func readFull(t reader, m model, f *failures, ctx string) {
 			}
 		}
 	}
+}
+
+// shapeKey packs what determines the shape of a treap (and therefore the answer of every pure
+// read): contents and the relative order of the priorities of the present keys. ok=false when a
+// priority is unknown (the implementation drew an unexpected number of values): no memoisation.
+func shapeKey(m model, prio [4]int) (uint32, bool) {
+	var key uint32
+	for i, v := range m {
+		key <<= 4
+		if v < 0 {
+			continue
+		}
+		if prio[i] < 0 {
+			return 0, false
+		}
+		rank := 0
+		for j, w := range m {
+			if w >= 0 && j != i && prio[j] < prio[i] {
+				rank++
+			}
+		}
+		key |= uint32(v+1)<<2 | uint32(rank)
+	}
+	return key, true
+}
+
+// fullReadDone memoises readFull per (system, producing operation, shape): the full read is a pure
+// function of the treap's shape, the cheap reads (contents + full forward/backward passes) are
+// never memoised.
+var fullReadDone = map[uint64]bool{}
+
+func fullReadNeeded(system int, opIdx int, m model, prio [4]int) bool {
+	k, ok := shapeKey(m, prio)
+	if !ok {
+		return true
+	}
+	key := uint64(system)<<40 | uint64(opIdx)<<32 | uint64(k)
+	if fullReadDone[key] {
+		return false
+	}
+	fullReadDone[key] = true
+	return true
+}
+
+func opIndex(op string) int {
+	for i, o := range allOps {
+		if o == op {
+			return i
+		}
+	}
+	return -1
 }
 
 // ops: "p<k><v>" put keys[k]=vals[v]; "d<k>" delete keys[k]. Ordered simplest first.
